@@ -11,11 +11,18 @@ Keys and values are small naturals in the case; the runner turns them into Pytho
   value 0 -> None, value v -> v;  on_miss [a, b] is the function key k -> value a*k+b.
 Cache 0 is built by the constructor, every `copy` appends a cache.
 Optional fields: 'ik' = how the constructor's `values` are passed ('list' (default) | 'dict' | 'iter' | 'map');
-'omk': 'falsy' = on_miss is a callable object whose truth value is False (oracle only, known finding).
+'omk': 'falsy' = on_miss is a callable object whose truth value is False (a fixed finding: an on_miss like any other).
+'prog': {str(k): [act, ...]} makes on_miss RE-ENTRANT: before it returns / raises as 'om' says, on_miss(k) performs the
+acts (ops in the format below; the cache number is ignored) on the very cache whose lookup called it (the RLock
+permits that); an act that raises ends the callback with that exception; lookups among the acts may miss and call
+on_miss again; 'depth' (default 3) is the nesting depth at which the callback raises ValueError instead.  An act whose
+name starts with '?' is wrapped in try / except Exception: pass by the callback; ['if_in' | 'if_not_in', 0, kt, act] makes the
+callback test `kt in cache` and perform `act` only if the answer is True / False (a callback that branches on what it sees).  'st': s makes the callback stateful: it
+returns a*k + b + s * (number of on_miss calls made on this cache before this one).
 Argument kinds of update / |=: 'dict' | 'list' | 'iter' | 'self' | 'map' (a mapping that is not a dict: keys() +
 __getitem__) | 'cache' (another cache of the world, op[3] = its number) | 'fail' (a generator that yields the pairs,
 then raises ValueError) | 'bad' (a list of the pairs followed by a malformed 1-tuple -> ValueError) | 'none'
-(update(**kw) without a positional argument: oracle only, known finding).  ==/!= operands: 'dict' | 'cache' |
+(update(**kw) without a positional argument; a fixed finding, inside the model as update((), **kw)).  ==/!= operands: 'dict' | 'cache' |
 'other' (op[3] selects None / 5 / 'x' / a list of pairs / []).
 """
 import itertools
@@ -134,21 +141,30 @@ N_OTHERS = 5
 # insertion-or-assignment (LRI) / insertion, assignment or successful lookup (LRU).  Inserting a
 # new key into a full cache evicts the key whose time is oldest.  No list, no ring.
 
+ACT_NAMES = ('set', 'getitem', 'get', 'setdefault', 'del', 'pop', 'popitem', 'clear', 'update', 'ior', 'in', 'len', 'iter', 'eq', 'ne')
+DEFAULT_DEPTH = 3
+
+
 class Ref:
-    def __init__(self, lru, max_size, om):
+    def __init__(self, lru, max_size, om, prog=None, depth=DEFAULT_DEPTH, st=0):
         self.lru, self.max, self.om = lru, max_size, om
+        self.prog, self.depth, self.st = prog, depth, st
+        self.ncalls = 0            # on_miss calls made on this cache so far (the callback's own state)
+        self.obs = None            # what the calls made by on_miss returned / raised in the implementation, in order
+        self.nested_fail = None
         self.vals, self.stamp, self.clock = {}, {}, 0
         self.h = self.m = self.s = 0
         self.evictions = 0
+        self.nested = 0
 
     def clone(self):
-        r = Ref(self.lru, self.max, self.om)
+        r = Ref(self.lru, self.max, self.om, self.prog, self.depth, self.st)
         r.vals, r.stamp, r.clock = dict(self.vals), dict(self.stamp), self.clock
         return r
 
     def clone_full(self):
         r = self.clone()
-        r.h, r.m, r.s, r.evictions = self.h, self.m, self.s, self.evictions
+        r.h, r.m, r.s, r.evictions, r.ncalls = self.h, self.m, self.s, self.evictions, self.ncalls
         return r
 
     def assign(self, k, v):
@@ -163,9 +179,11 @@ class Ref:
     def remove(self, k):
         del self.vals[k], self.stamp[k]
 
-    def lookup(self, k):
+    def lookup(self, k, depth=0):
         """-> (answered, value, on_miss calls, exception class raised by on_miss or None).
-        A lookup that does not find the key is a miss whatever on_miss then does."""
+        A lookup that does not find the key is a miss whatever on_miss then does.  A re-entrant on_miss
+        (self.prog) first performs its acts on this very reference cache - nested lookups are lookups like
+        any other - and the value it finally returns is assigned to the key, whatever the acts did to it."""
         if k in self.vals:
             self.h += 1
             if self.lru:
@@ -174,14 +192,109 @@ class Ref:
             return True, self.vals[k], [], None
         self.m += 1
         if self.om is not None:
+            calls = [k]
+            earlier = self.ncalls
+            self.ncalls += 1
+            if self.prog is not None:
+                if depth >= self.depth:
+                    return False, None, calls, 'ValueError'
+                for act in self.prog.get(str(k), ()):
+                    self.nested += 1
+                    exc = self.act(act, depth + 1, calls)
+                    if exc is not None and not act[0].startswith('?'):
+                        return False, None, calls, exc
             if len(self.om) > 2 and k in self.om[2]:
-                return False, None, [k], 'KeyError'
+                return False, None, calls, 'KeyError'
             if len(self.om) > 2 and k in self.om[3]:
-                return False, None, [k], 'ValueError'
-            v = self.om[0] * k + self.om[1]
+                return False, None, calls, 'ValueError'
+            v = self.om[0] * k + self.om[1] + self.st * earlier
             self.assign(k, v)
-            return True, v, [k], None
+            return True, v, calls, None
         return False, None, [], None
+
+    def act(self, op, depth, calls):
+        """one dict-API call made by on_miss on the cache; -> the class of the exception it raises, or None.
+        With self.obs (the results the implementation's callback saw, in completion order) the result of the call
+        is compared with what the reference cache answers at that moment."""
+        name, a = op[0].lstrip('?'), op[2:]
+        if name in ('if_in', 'if_not_in'):
+            self.act(['in', 0, a[0]], depth, calls)
+            if (a[0] in self.vals) == (name == 'if_in'):
+                exc = self.act(a[1], depth, calls)
+                return None if a[1][0].startswith('?') else exc
+            return None
+        exc, ret = None, ['none']
+        if name == 'set':
+            self.assign(a[0], a[1])
+        elif name in LOOKUPS:
+            dflt = a[1] if len(a) > 1 else 0
+            found, v, sub, lexc = self.lookup(a[0], depth)
+            calls.extend(sub)
+            if found:
+                ret = ['val', v]
+            elif lexc is not None and lexc != 'KeyError':
+                exc = lexc
+            elif name == 'getitem':
+                exc = 'KeyError'
+            else:
+                self.s += 1
+                ret = ['val', dflt]
+                if name == 'setdefault':
+                    self.assign(a[0], dflt)
+        elif name == 'del':
+            if a[0] not in self.vals:
+                exc = 'KeyError'
+            else:
+                self.remove(a[0])
+        elif name == 'pop':
+            if a[0] in self.vals:
+                ret = ['val', self.vals[a[0]]]
+                self.remove(a[0])
+            elif len(a) < 2:
+                exc = 'KeyError'
+            else:
+                ret = ['val', a[1]]
+        elif name == 'popitem':
+            if not self.vals:
+                exc = 'KeyError'
+            else:
+                # which item goes is the implementation's choice: any item of the reference cache is accepted
+                got = self.obs[0] if self.obs else None
+                if got and got[0] == 'item' and self.vals.get(got[1], object()) == got[2]:
+                    k = got[1]
+                else:
+                    k = next(reversed(list(self.vals)))
+                ret = ['item', k, self.vals[k]]
+                self.remove(k)
+        elif name == 'clear':
+            self.vals.clear()
+            self.stamp.clear()
+        elif name in ('update', 'ior'):
+            for k, v in (dedup(a[1]) if a[0] in DEDUP_KINDS else a[1]):
+                self.assign(k, v)
+        elif name == 'in':
+            ret = ['bool', a[0] in self.vals]
+        elif name == 'len':
+            ret = ['nat', len(self.vals)]
+        elif name == 'iter':
+            ret = ['items', sorted([k, v] for k, v in self.vals.items())]
+        elif name in ('eq', 'ne'):
+            same = self.vals == {k: v for k, v in dedup(a[1])}
+            ret = ['bool', same if name == 'eq' else not same]
+        else:
+            raise ValueError('unknown act %r' % (op,))
+        if self.obs is not None and self.nested_fail is None:
+            exp = ['exc', exc] if exc is not None else ret
+            if not self.obs:
+                self.nested_fail = 'the call %r made by on_miss was not observed' % (op,)
+            else:
+                got = self.obs.pop(0)
+                if got and got[0] == 'items':
+                    got = ['items', sorted(got[1])]
+                if got != exp:
+                    self.nested_fail = ('the call %r made by on_miss gave %r, the reference cache answers %r at that moment'
+                                        % (op, got, exp))
+        return exc
 
 
 class C02(Property):
@@ -193,7 +306,13 @@ class C02(Property):
             'of the world / an iterable that raises after some pairs / a list with a malformed element, update keyword '
             'arguments, pop, popitem, clear, copy, in, len, iteration, ==/!= against dicts, other caches and non-mappings '
             '(None, 5, a string, a list)) on an LRI or LRU with max_size 1-5 (8 in thorough; 33-200 in the big family), '
-            'on_miss None, k->a*k+b (also returning None), or that function raising KeyError / ValueError for chosen keys, '
+            'on_miss None, k->a*k+b (also returning None), or that function raising KeyError / ValueError for chosen keys, or a '
+            'RE-ENTRANT on_miss: a callback that, before it returns / raises, itself calls methods of the cache that is waiting '
+            'for its result (per key a program of set / item get / get / setdefault / del / pop / popitem / clear / update / |= / in / len / iteration / == '
+            'calls: stores the key itself, prefetches or drops a neighbour, clears, fills the cache beyond capacity, looks other '
+            'absent keys up - nested on_miss calls down to a depth guard of 1-3 -, raises after mutating, wraps some of its calls in '
+            'try / except, branches on a membership test, keeps state: its value depends on how often it was called on that cache; what each of its calls returned or '
+            'raised is recorded and judged against the reference cache at that moment), '
             'constructor values passed as list / dict / iterator / mapping object, over max_size+1..+3 keys (strings, the '
             'aliases 1/1.0/True, or exotic hashables: None, (), \'\', tuples, frozensets, negative and huge ints, bytes), '
             'ended by a probe that inserts max_size (+1 in the scripted, adversarial and half of the random cases) fresh keys '
@@ -202,15 +321,19 @@ class C02(Property):
             'scripted scenarios (falsy on_miss results, stored None, removal of a None-valued newest/oldest key then overflow, '
             'lookups on a not-yet-full LRU, update/|= with exactly the current contents after a reorder, equal contents in a '
             'different dict order, every argument kind overflowing with duplicates, one cache read into another then both '
-            'diverging, keyword arguments overlapping E; plus two oracle-only known-finding families), 14 (thorough 60) big-'
+            'diverging, keyword arguments overlapping E; plus the two families of the fixed findings: update(**kw) alone, a falsy callable as on_miss; get / setdefault / pop defaults identical to the stored value or to on_miss\'s result), 2448 scripted re-entrant '
+            'on_miss scenarios (15 program kinds x 3 result kinds x every kind of lookup, loading max_size+1 keys, refresh, '
+            'overflow, copy), 14 (thorough 60) big-'
             'capacity cases with bulk updates of 34-400 pairs, 300 adversarial scripts; (1) exhaustive: all histories of <=2 '
-            'calls over a 43-call alphabet on 3 keys x max_size 1-3 x both classes x on_miss none / total / raising; (2) 14k '
+            'calls over a 43-call alphabet on 3 keys x max_size 1-3 x both classes x on_miss none / total / raising, and all '
+            'histories of <=2 calls over a 12-call alphabet x 14 re-entrant on_miss programs x max_size 1-2 (8736 cases); (2) 14k '
             '(thorough 60k) sampled 3-5-call histories on pre-filled caches; (3) 1500 (6000) adversarial scripts of 13 kinds; '
-            '(4) 8000 (120000) random histories of 4-40 (thorough up to 300) calls. 3 cases of 4 run on the pointer-level Lean '
-            'model of the linked list (C02.hwstep), the others on the ring model (C02.wstep). Non-trivial = at least one '
+            '(4) 8000 (105000) random histories of 4-40 (thorough up to 300) calls (45% of those with an on_miss, and 40% of the '
+            'adversarial scripts with one, make it re-entrant with random programs). 3 cases of 4 run on the pointer-level Lean '
+            'model of the linked list (C02.hwstep / C02.rhwstep), the others on the ring model (C02.wstep / C02.rwstep). Non-trivial = at least one '
             'eviction happened in the reference cache; distinct = distinct whole case.')
     ASSUMPTIONS = ['keys are hashable with == consistent with hash; values are compared with ==',
-                   'on_miss is a function of the key that does not touch the cache; it may return, raise KeyError or raise another exception (ValueError in the generators)',
+                   'on_miss is a deterministic callback: it may call any dict-API method of the cache it was called from (re-entrantly, any nesting depth, any try / except around those calls, any branching on their results in the Lean model - straight-line programs with optional try / except in the generators), may keep state of its own (in the model: any function of the keys it was called with before; in the generators: its call count), then returns a value, raises KeyError or raises another exception (ValueError in the generators); it does not touch OTHER caches',
                    'max_size is an int >= 1 and is not reassigned after construction',
                    'one thread (C03 covers concurrency)',
                    'a failing update(): the statement does not say what remains; the oracle accepts "the pairs received before the exception are assigned" (dict.update, and the model) or "none of them"; update(other_cache): the oracle accepts the source either untouched or looked up once per item (the model: looked up)']
@@ -276,6 +399,8 @@ class C02(Property):
         # (0) small scripted scenarios (unusual-but-legal inputs, multi-step interplay, several caches), big sizes
         for c in self.scripted():
             yield c
+        for c in self.reentrant_scripted():
+            yield c
         for c in self.big_cases(rng, 60 if self.thorough else 14):
             yield c
         for c in self.adversarial(rng, 300):
@@ -287,6 +412,9 @@ class C02(Property):
             for n in (0, 1, 2):
                 for hist in itertools.product(alpha, repeat=n):
                     yield self.probe(self.normalize(dict(base, ops=[list(o) for o in hist])))
+        # (1b) the same for a re-entrant on_miss: every program kind, <= 2 calls
+        for c in self.reentrant_small():
+            yield c
         # (2) sampled from the space of 3..4(5)-call histories, pre-filled caches
         n_samp = 60000 if self.thorough else 14000
         for _ in range(n_samp):
@@ -301,13 +429,17 @@ class C02(Property):
         for c in self.adversarial(rng, 6000 if self.thorough else 1500):
             yield c
         # (4) random long histories
-        n_rand = 120000 if self.thorough else 8000
+        n_rand = 105000 if self.thorough else 8000
         for i in range(n_rand):
             yield self.random_case(rng, big=self.thorough and i % 8 == 0)
 
     def deep_cases(self, budget_s):
         rng = self.rng
         for c in self.scripted():
+            yield c
+        for c in self.reentrant_scripted():
+            yield c
+        for c in self.reentrant_small():
             yield c
         for c in self.big_cases(rng, 40):
             yield c
@@ -395,6 +527,11 @@ class C02(Property):
                 else:
                     ops.append([name, i, 'dict', None])   # filled in below with (a variation of) the current contents
         case = {'cls': cls, 'max': mx, 'om': om, 'km': km, 'nk': nk, 'init': init, 'ops': ops}
+        if om is not None and rng.random() < 0.45:
+            case['prog'] = self.random_prog(rng, nk, mx)
+            case['depth'] = rng.choice((1, 2, 3, 3))
+            if rng.random() < 0.4:
+                case['st'] = rng.choice((1, 2, 5))
         if init is not None and rng.random() < 0.5:
             case['ik'] = rng.choice(('dict', 'iter', 'map'))
         self.fill_eq(case, rng)
@@ -479,8 +616,10 @@ class C02(Property):
             init = None
             if rng.random() < 0.3:
                 init, ops = [[op[2], op[3]] for op in ops[:mx]], ops[mx:]
-            yield self.probe(self.normalize({'cls': cls, 'max': mx, 'om': om, 'km': km, 'nk': nk, 'init': init, 'ops': ops}),
-                             extra=1)
+            case = {'cls': cls, 'max': mx, 'om': om, 'km': km, 'nk': nk, 'init': init, 'ops': ops}
+            if om is not None and rng.random() < 0.4:
+                case['prog'] = rng.choice(self.prog_kinds(nk))[1] if rng.random() < 0.6 else self.random_prog(rng, nk, 0)
+            yield self.probe(self.normalize(case), extra=1)
 
     def scripted(self):
         """small deterministic scenarios aimed at unusual-but-legal inputs and multi-step interplay"""
@@ -510,6 +649,14 @@ class C02(Property):
                     for val in (0, 5):
                         add(cls, mx, None, km, nk, None, fill[1:] + [['set', 0, 0, val], ['pop', 0, 0, val], ['get', 0, 0, 7], ['in', 0, 0]])
                         add(cls, mx, [2, 1], km, nk, [[0, val]], [['pop', 0, 0, val], ['pop', 0, 0, val], ['getitem', 0, 0]])
+                    # get / setdefault whose default is the very object stored under the key, or the very object
+                    # on_miss returns: found is a hit (no soft miss), answered by on_miss is a miss (no soft miss)
+                    for val in (0, 5):
+                        add(cls, mx, None, km, nk, None, fill[1:] + [['set', 0, 0, val], ['get', 0, 0, val], ['setdefault', 0, 0, val],
+                                                                     ['get', 0, mx + 1, val], ['setdefault', 0, mx + 1, val],
+                                                                     ['get', 0, mx + 1, val], ['pop', 0, mx + 1, val], ['in', 0, mx + 1]])
+                        add(cls, mx, [0, val], km, nk, None, [['get', 0, 0, val], ['setdefault', 0, 1, val], ['get', 0, 0, val],
+                                                              ['pop', 0, 0, val], ['get', 0, 0, val], ['len', 0]])
                     # a key whose value is None removed in every way (as newest / as oldest key), then overflow
                     for rm in (['pop', 0, 0], ['pop', 0, 0, 5], ['del', 0, 0], ['popitem', 0]):
                         add(cls, mx, None, km, nk, None, fill[1:] + [['set', 0, 0, 0], rm])
@@ -553,11 +700,120 @@ class C02(Property):
                     add(cls, mx, None, 's', nk, None, fill + [['update', 0, kind, arg, [[mx, 9], [0, 6], [mx + 1, 5]]], ['getitem', 0, 0]])
                     add(cls, mx, None, 's', nk, None, [['update', 0, kind, [] if kind == 'self' else [[1, 1]], [[1, 2], [0, 3]]], ['getitem', 0, 1]])
                 add(cls, mx, None, 's', nk, None, fill + [['copy', 0], ['update', 1, 'cache', 0, [[0, 6], [mx, 5]]], ['getitem', 1, 0]])
-                # --- oracle only (known findings): update(**kw) without a positional argument; a falsy callable as on_miss
+                # --- two formerly oracle-only families (fixed findings): update(**kw) without a positional argument; a falsy callable as on_miss
                 add(cls, mx, None, 's', nk, None, fill[:1] + [['update', 0, 'none', [], [[0, 5], [1, 2]]], ['getitem', 0, 0]])
                 for look in LOOKUPS:
                     add(cls, mx, [2, 1], 's', nk, None, [[look, 0, 0], [look, 0, 0], ['len', 0]], omk='falsy')
         return out
+
+    # ------------------------------------------------------------------ re-entrant on_miss
+    @staticmethod
+    def prog_kinds(nk):
+        """on_miss programs, one per key: what a loader may do to the cache that is waiting for its result"""
+        def table(f):
+            return {str(k): [list(a) for a in f(k)] for k in range(nk)}
+        n1 = lambda k: (k + 1) % nk
+        n2 = lambda k: (k + 2) % nk
+        return [
+            ('self', table(lambda k: [['set', 0, k, 9]])),                       # self-priming loader (seeded C02-8)
+            ('next', table(lambda k: [['set', 0, n1(k), 4]])),                   # prefetches a neighbour
+            ('self_del', table(lambda k: [['set', 0, k, 9], ['del', 0, k]])),
+            ('pop_next', table(lambda k: [['pop', 0, n1(k), 0], ['in', 0, k]])),
+            ('prime_then_raise', table(lambda k: [['set', 0, k, 9], ['del', 0, n1(k)]])),   # KeyError if the neighbour is absent
+            ('clear', table(lambda k: [['set', 0, n1(k), 3], ['clear', 0], ['len', 0]])),
+            ('get_next', table(lambda k: [['getitem', 0, n1(k)]])),               # nested misses down to the depth guard
+            ('soft_next', table(lambda k: [['get', 0, n1(k), 5], ['setdefault', 0, n2(k), 6]])),
+            ('fill', table(lambda k: [['update', 0, 'list', [[j, 1 + j] for j in range(nk)], []]])),
+            ('self_hit', table(lambda k: [['set', 0, k, 9], ['getitem', 0, k], ['get', 0, k, 9]])),
+            ('guarded', table(lambda k: [['?del', 0, n1(k)], ['set', 0, k, 9], ['?getitem', 0, n2(k)], ['?pop', 0, n2(k)]])),   # try / except around its calls
+            ('observe', table(lambda k: [['in', 0, k], ['len', 0], ['iter', 0], ['?popitem', 0], ['eq', 0, 'dict', [[n1(k), 4]]],
+                                         ['set', 0, n1(k), 4], ['in', 0, n1(k)], ['?getitem', 0, n1(k)], ['popitem', 0]])),   # looks at the cache in between
+            ('branching', table(lambda k: [['if_not_in', 0, n1(k), ['set', 0, n1(k), 4]], ['if_in', 0, n2(k), ['?del', 0, n2(k)]],
+                                           ['if_in', 0, k, ['set', 0, k, 8]], ['if_not_in', 0, n2(k), ['getitem', 0, n2(k)]]])),   # decides by what it sees
+            ('only0', {'0': [['set', 0, 0, 9], ['set', 0, 1, 8]]}),              # other keys: an ordinary loader
+            ('empty', {}),                                                       # no acts at all: must equal the plain on_miss
+        ]
+
+    def reentrant_scripted(self):
+        out = []
+        for cls in ('LRI', 'LRU'):
+            for mx in (1, 2, 3):
+                nk = mx + 2
+                for name, prog in self.prog_kinds(nk):
+                    for om in ([2, 1], [2, 1, [0], [nk - 1]], [0, 0]):
+                        for km in ('s', 'n'):
+                            for depth in ((1, 3) if name in ('get_next', 'soft_next') else (3,)):
+                                base = {'cls': cls, 'max': mx, 'om': om, 'km': km, 'nk': nk, 'init': None, 'prog': prog,
+                                        'depth': depth}
+                                if km == 'n' and name in ('self', 'get_next', 'guarded', 'empty', 'clear'):
+                                    base['st'] = 3        # a callback with state: the value depends on its call count
+                                # load every key through every kind of lookup, refresh the first, insert one more
+                                for look in LOOKUPS:
+                                    ops = [[look, 0, k] for k in range(mx + 1)]
+                                    ops += [['getitem', 0, 0] if cls == 'LRU' else ['set', 0, 0, 1], ['set', 0, mx + 1, 2],
+                                            [look, 0, 1], ['len', 0]]
+                                    out.append(self.probe(dict(base, ops=ops), extra=1))
+                                # pre-filled cache: a miss on a full cache whose loader touches the oldest / newest key
+                                init = [[k, 1 + k] for k in range(1, mx + 1)]
+                                out.append(self.probe(dict(base, init=init, ops=[['getitem', 0, 0], ['get', 0, mx + 1, 5],
+                                                                                 ['setdefault', 0, 0, 7], ['copy', 0],
+                                                                                 ['getitem', 1, mx + 1], ['eq', 0, 'cache', 1]]),
+                                                      extra=1))
+        return out
+
+    def reentrant_small(self):
+        """every history of <= 2 calls over a 12-call alphabet, every program kind"""
+        for cls in ('LRI', 'LRU'):
+            for mx in (1, 2):
+                alpha = []
+                for k in range(3):
+                    alpha += [['getitem', 0, k], ['get', 0, k, 9], ['setdefault', 0, k, 9]]
+                alpha += [['set', 0, 0, 9], ['del', 0, 1], ['pop', 0, 2, 9]]
+                for name, prog in self.prog_kinds(3):
+                    if name == 'empty':
+                        continue
+                    for om in ([2, 1, [1], [2]],):      # key 0 is answered, 1 raises KeyError, 2 raises ValueError
+                        base = {'cls': cls, 'max': mx, 'om': om, 'km': 's', 'nk': 3, 'init': None, 'prog': prog}
+                        for n in (1, 2):
+                            for hist in itertools.product(alpha, repeat=n):
+                                yield self.probe(dict(base, ops=[list(o) for o in hist]))
+
+    def random_prog(self, rng, nk, mx):
+        prog = {}
+        for k in range(nk + mx):
+            if rng.random() < 0.6:
+                acts = []
+                for _ in range(rng.choice((1, 1, 2, 3))):
+                    t = k if rng.random() < 0.4 else rng.randrange(nk)
+                    r = rng.random()
+                    if r < 0.35:
+                        acts.append(['set', 0, t, rng.randint(0, 9)])
+                    elif r < 0.5:
+                        acts.append([rng.choice(LOOKUPS), 0, t] + ([rng.randint(0, 9)] if rng.random() < 0.5 else []))
+                        if acts[-1][0] == 'getitem':
+                            acts[-1] = acts[-1][:3]
+                    elif r < 0.62:
+                        acts.append(['pop', 0, t] + ([rng.randint(0, 9)] if rng.random() < 0.7 else []))
+                    elif r < 0.7:
+                        acts.append(['del', 0, t])
+                    elif r < 0.75:
+                        acts.append(['clear', 0])
+                    elif r < 0.88:
+                        acts.append([rng.choice(('update', 'ior')), 0, rng.choice(('dict', 'list')),
+                                     self.rand_pairs(rng, nk, False, 0, mx + 1)])
+                        if acts[-1][0] == 'update':
+                            acts[-1].append([])
+                        if acts[-1][2] == 'dict':
+                            acts[-1][3] = dedup(acts[-1][3])
+                    else:
+                        acts.append(rng.choice((['in', 0, t], ['len', 0], ['popitem', 0], ['iter', 0],
+                                                [rng.choice(('eq', 'ne')), 0, 'dict', self.rand_pairs(rng, nk, True, 0, 2)])))
+                    if rng.random() < 0.25:
+                        acts[-1][0] = '?' + acts[-1][0]       # the callback catches whatever this call raises
+                    if rng.random() < 0.15:                   # ... or makes it depend on a membership test
+                        acts[-1] = [rng.choice(('if_in', 'if_not_in')), 0, rng.randrange(nk), acts[-1]]
+                prog[str(k)] = acts
+        return prog
 
     def big_cases(self, rng, n):
         """capacities around and above DEFAULT_MAX_SIZE, bulk updates of tens to hundreds of pairs"""
@@ -599,9 +855,13 @@ class C02(Property):
             case = {'cls': cls, 'max': mx, 'om': om, 'km': 's', 'nk': nk, 'init': init, 'ops': ops}
             if init is not None:
                 case['ik'] = rng.choice(('list', 'dict', 'iter', 'map'))
+            if om is not None and rng.random() < 0.6:
+                # a re-entrant loader at big capacities: self-priming / prefetching / dropping a neighbour / soft lookups
+                kinds = dict(self.prog_kinds(nk))
+                case['prog'] = kinds[rng.choice(('self', 'next', 'pop_next', 'soft_next', 'guarded'))]
             yield self.probe(self.normalize(case), limit=8)
 
-    # ------------------------------------------------------------------ known findings (oracle-only regions)
+    # ------------------------------------------------------------------ predicates of the (now fixed) findings
     def _passes(self, case):
         self._quiet = True
         try:
@@ -637,68 +897,93 @@ class C02(Property):
             return '%d,%d' % tuple(om)
         return '%d,%d/%s/%s' % (om[0], om[1], '.'.join(map(str, om[2])) or '-', '.'.join(map(str, om[3])) or '-')
 
+    @staticmethod
+    def op_tok(op):
+        """one call as a driver token (None: outside the model)"""
+        name, i = op[0], op[1]
+        a = op[2:]
+        if name == 'set':
+            return 's:%d:%d:%d' % (i, a[0], a[1])
+        if name == 'getitem':
+            return 'g:%d:%d' % (i, a[0])
+        if name == 'del':
+            return 'd:%d:%d' % (i, a[0])
+        if name == 'get':
+            return 'G:%d:%d:%d' % (i, a[0], a[1] if len(a) > 1 else 0)
+        if name == 'setdefault':
+            return 'D:%d:%d:%d' % (i, a[0], a[1] if len(a) > 1 else 0)
+        if name in ('update', 'ior'):
+            kind, ps = a[0], a[1]
+            if kind == 'none':
+                arg = 'P:-'    # update(**kw) without a positional argument: E defaults to ()
+            elif kind == 'self':
+                arg = 'S'
+            elif kind == 'cache':
+                arg = 'C:%d' % ps
+            elif kind in ('fail', 'bad'):
+                arg = 'F:' + pairs_txt(ps)
+            else:
+                arg = 'P:' + pairs_txt(dedup(ps) if kind in DEDUP_KINDS else ps)
+            if name == 'update':
+                return 'u:%d:%s:%s' % (i, arg, pairs_txt(dedup(a[2])))
+            return 'o:%d:%s' % (i, arg)
+        if name == 'pop':
+            return 'p:%d:%s' % (i, ':'.join(str(x) for x in a))
+        if name == 'popitem':
+            return 'P:%d' % i
+        if name == 'clear':
+            return 'c:%d' % i
+        if name == 'copy':
+            return 'C:%d' % i
+        if name == 'in':
+            return 'i:%d:%d' % (i, a[0])
+        if name == 'len':
+            return 'l:%d' % i
+        if name == 'iter':
+            return 't:%d' % i
+        if name in ('eq', 'ne'):
+            t = 'e' if name == 'eq' else 'n'
+            if a[0] == 'cache':
+                return '%s:%d:C:%d' % (t, i, a[1])
+            if a[0] == 'other':
+                return '%s:%d:O' % (t, i)
+            return '%s:%d:P:%s' % (t, i, pairs_txt(dedup(a[1])))
+        return None
+
     def line(self, case):
-        if case.get('omk'):
-            return None            # a falsy callable as on_miss: the code ignores it (known finding), outside the model
+        # ('omk': 'falsy' - a callable whose truth value is False - is an on_miss like any other since fix 358a3f4)
         init = case['init'] or []
         if (case.get('ik') or 'list') in DEDUP_KINDS:
             init = dedup(init)
-        toks = ['1' if case['cls'] == 'LRU' else '0', str(case['max']),
-                self.om_txt(case['om']), str(case['nk']),
+        om = self.om_txt(case['om'])
+        if case.get('prog') is not None and case['om'] is not None:
+            # re-entrant on_miss: a,b/ke/ve/k=act+act~k=act/depth  (acts are op tokens on cache number 0)
+            if case.get('st'):
+                om = '%d,%d,%d' % (case['om'][0], case['om'][1], case['st']) + om[len('%d,%d' % tuple(case['om'][:2])):]
+            if len(case['om']) == 2:
+                om += '/-/-'
+            progs = []
+            def act_tok(a):
+                if a[0] in ('if_in', 'if_not_in'):
+                    t = act_tok(a[3])
+                    return None if t is None or a[3][0] in ('if_in', 'if_not_in') else '@%d:%d:%s' % (a[0] == 'if_in', a[2], t)
+                if a[0].lstrip('?') not in ACT_NAMES:
+                    return None
+                t = self.op_tok([a[0].lstrip('?'), 0] + list(a[2:]))
+                return None if t is None else ('?' if a[0].startswith('?') else '') + t
+            for k in sorted(case['prog'], key=int):
+                acts = [act_tok(a) for a in case['prog'][k]]
+                if any(t is None for t in acts):
+                    return None
+                progs.append('%s=%s' % (k, '+'.join(acts) or '-'))
+            om += '/%s/%d' % ('~'.join(progs) or '-', case.get('depth', DEFAULT_DEPTH))
+        toks = ['1' if case['cls'] == 'LRU' else '0', str(case['max']), om, str(case['nk']),
                 pairs_txt(init)]
         for op in case['ops']:
-            name, i = op[0], op[1]
-            a = op[2:]
-            if name == 'set':
-                toks.append('s:%d:%d:%d' % (i, a[0], a[1]))
-            elif name == 'getitem':
-                toks.append('g:%d:%d' % (i, a[0]))
-            elif name == 'del':
-                toks.append('d:%d:%d' % (i, a[0]))
-            elif name == 'get':
-                toks.append('G:%d:%d:%d' % (i, a[0], a[1] if len(a) > 1 else 0))
-            elif name == 'setdefault':
-                toks.append('D:%d:%d:%d' % (i, a[0], a[1] if len(a) > 1 else 0))
-            elif name in ('update', 'ior'):
-                kind, ps = a[0], a[1]
-                if kind == 'none':
-                    return None    # update(**kw) without a positional argument raises TypeError (known finding)
-                if kind == 'self':
-                    arg = 'S'
-                elif kind == 'cache':
-                    arg = 'C:%d' % ps
-                elif kind in ('fail', 'bad'):
-                    arg = 'F:' + pairs_txt(ps)
-                else:
-                    arg = 'P:' + pairs_txt(dedup(ps) if kind in DEDUP_KINDS else ps)
-                if name == 'update':
-                    toks.append('u:%d:%s:%s' % (i, arg, pairs_txt(dedup(a[2]))))
-                else:
-                    toks.append('o:%d:%s' % (i, arg))
-            elif name == 'pop':
-                toks.append('p:%d:%s' % (i, ':'.join(str(x) for x in a)))
-            elif name == 'popitem':
-                toks.append('P:%d' % i)
-            elif name == 'clear':
-                toks.append('c:%d' % i)
-            elif name == 'copy':
-                toks.append('C:%d' % i)
-            elif name == 'in':
-                toks.append('i:%d:%d' % (i, a[0]))
-            elif name == 'len':
-                toks.append('l:%d' % i)
-            elif name == 'iter':
-                toks.append('t:%d' % i)
-            elif name in ('eq', 'ne'):
-                t = 'e' if name == 'eq' else 'n'
-                if a[0] == 'cache':
-                    toks.append('%s:%d:C:%d' % (t, i, a[1]))
-                elif a[0] == 'other':
-                    toks.append('%s:%d:O' % (t, i))
-                else:
-                    toks.append('%s:%d:P:%s' % (t, i, pairs_txt(dedup(a[1]))))
-            else:
+            t = self.op_tok(op)
+            if t is None:
                 return None
+            toks.append(t)
         # three cases out of four are run on the pointer-level model of the linked list (cls 2 / 3: C02.hwstep),
         # the others on the ring model (cls 0 / 1: C02.wstep); the two are proved equivalent and print the same text
         if zlib.crc32(' '.join(toks).encode()) % 4:
@@ -715,18 +1000,55 @@ class C02(Property):
             a, b = case['om'][:2]
             ke, ve = case['om'][2:] if len(case['om']) > 2 else ([], [])
 
+            prog = case.get('prog')
+            max_depth = case.get('depth', DEFAULT_DEPTH)
+            st = case.get('st', 0) if prog is not None else 0
+            nest = [0]
+            ncalls = {}            # id(cache) -> on_miss calls made on it so far (the callback's own state)
+
             def om(key):
                 k = dec_key(km, key)
                 calls.append(k)
+                earlier = ncalls.get(id(cur[0]), 0)
+                ncalls[id(cur[0])] = earlier + 1
+                if prog is not None:
+                    # re-entrant: the callback uses the cache whose lookup called it before it answers
+                    if nest[0] >= max_depth:
+                        raise ValueError('on_miss nested too deeply')
+                    nest[0] += 1
+                    try:
+                        def perform(sj, act):
+                            guarded = act[0].startswith('?')
+                            try:
+                                nested.append(do(sj, [act[0].lstrip('?')] + list(act[1:]), cur[0]))
+                            except CaseTimeout:
+                                raise
+                            except Exception as e:
+                                nested.append(['exc', exc_name(e)])
+                                if not guarded:
+                                    raise
+                        for j, act in enumerate(prog.get(str(k), ())):
+                            sj = cur[1] + 7 * (j + 1)
+                            if act[0] in ('if_in', 'if_not_in'):
+                                seen = do(sj, ['in', 0, act[2]], cur[0])
+                                nested.append(seen)
+                                if seen[1] == (act[0] == 'if_in'):
+                                    perform(sj + 3, act[3])
+                            else:
+                                perform(sj, act)
+                    finally:
+                        nest[0] -= 1
                 if k in ke:
                     raise KeyError(key)
                 if k in ve:
                     raise ValueError(key)
-                return enc_val(a * k + b) if isinstance(k, int) else None
+                return enc_val(a * k + b + st * earlier) if isinstance(k, int) else None
             if case.get('omk') == 'falsy':
                 om = FalsyCallable(om)
         recs = []
         world = []
+        nested = []                # results of the calls on_miss made during the current step, in completion order
+        cur = [None, 0]            # the cache the running top-level call is made on, and its step number
         nk = case['nk']
 
         def ek(k, salt):
@@ -750,8 +1072,11 @@ class C02(Property):
             except Exception as e:
                 return {'exc': exc_name(e)}
 
-        def do(si, op):
-            name, c, a = op[0], world[op[1]], op[2:]
+        def do(si, op, c=None):
+            name, a = op[0], op[2:]
+            if c is None:
+                c = world[op[1]]
+                cur[0], cur[1] = c, si
             if name == 'set':
                 c[ek(a[0], si)] = enc_val(a[1])
                 return ['none']
@@ -849,6 +1174,7 @@ class C02(Property):
                 if world:
                     for si, op in enumerate(case['ops']):
                         del calls[:]
+                        del nested[:]
                         rec = {}
                         try:
                             rec['ret'] = do(si, op)
@@ -857,6 +1183,8 @@ class C02(Property):
                         except Exception as e:
                             rec['exc'] = exc_name(e)
                         rec['calls'] = list(calls)
+                        if case.get('prog') is not None and case['om'] is not None:
+                            rec['nested'] = list(nested)
                         rec['dumps'] = [dump(c) for c in world]
                         recs.append(rec)
         except CaseTimeout:
@@ -907,7 +1235,9 @@ class C02(Property):
         """Run the reference caches over the history.  With `obs`: judge the observation, return a Failure or
         None.  With `upto_placeholders`: fill the `None` operands of ==/!= from the reference contents."""
         lru = case['cls'] == 'LRU'
-        refs = [Ref(lru, case['max'], case['om'])]
+        has_prog = case['om'] is not None and case.get('prog') is not None
+        refs = [Ref(lru, case['max'], case['om'], case.get('prog') if has_prog else None,
+                    case.get('depth', DEFAULT_DEPTH), case.get('st', 0) if has_prog else 0)]
         judge = obs is not None
         ctx = {'si': None}
 
@@ -965,6 +1295,8 @@ class C02(Property):
             r = refs[i]
             ctx['si'] = si
             what = 'op %d %r' % (si, op)
+            r.nested_fail = None
+            r.obs = list(obs[si + 1]['nested']) if judge and si + 1 < len(obs) and 'nested' in obs[si + 1] else None
             exp_exc = None
             exp_ret = ['none']
             exp_calls = []
@@ -1102,6 +1434,9 @@ class C02(Property):
             if rec['calls'] != exp_calls:
                 return F('on_miss', '%s: on_miss called with %r, expected %r (called exactly for lookups of absent keys)'
                                % (what, rec['calls'], exp_calls))
+            if r.nested_fail or r.obs:
+                return F('nested', '%s: %s' % (what, r.nested_fail or 'on_miss made calls the reference does not: %r' % (r.obs,)))
+            r.obs = None
             if name == 'copy' and 'exc' not in rec:
                 n = r.clone()
                 if len(rec['dumps']) == len(refs) + 1 and 'exc' not in rec['dumps'][-1]:
@@ -1135,6 +1470,9 @@ class C02(Property):
             st = self.stats
             st['evictions'] = st.get('evictions', 0) + sum(r.evictions for r in refs)
             st['steps'] = st.get('steps', 0) + len(case['ops'])
+            if case.get('prog') is not None:
+                st['reentrant_cases'] = st.get('reentrant_cases', 0) + 1
+                st['reentrant_acts'] = st.get('reentrant_acts', 0) + sum(r.nested for r in refs)
             ops = st.setdefault('ops', {})
             for op in case['ops']:
                 ops[op[0]] = ops.get(op[0], 0) + 1
@@ -1191,6 +1529,16 @@ class C02(Property):
             yield dict(case, km='s')
         if case.get('ik'):
             yield {k: v for k, v in case.items() if k != 'ik'}
+        if case.get('prog') is not None:
+            yield {k: v for k, v in case.items() if k not in ('prog', 'depth', 'st')}
+            if case.get('st'):
+                yield {k: v for k, v in case.items() if k != 'st'}
+            for key in sorted(case['prog']):
+                yield dict(case, prog={k: v for k, v in case['prog'].items() if k != key})
+            for key in sorted(case['prog']):
+                acts = case['prog'][key]
+                for j in range(len(acts)):
+                    yield dict(case, prog=dict(case['prog'], **{key: acts[:j] + acts[j + 1:]}))
         if case['om'] is not None:
             yield dict(case, om=None)
             if len(case['om']) > 2:
